@@ -94,6 +94,7 @@ func checkC07(r *core.Run, p *core.Program) {
 	checkTerminateProgress(r, p, a)
 	checkTaint(r, p, a, "C07.alloc")
 	checkRecursionBounds(r, p, a)
+	checkRefTrackerKinds(r, p, "C07.recursion")
 }
 
 // checkWaitGroups is shared with C16.cache-failure and C17.session.
@@ -327,4 +328,101 @@ func checkRecursionBounds(r *core.Run, p *core.Program, a *analysis) {
 		})
 	}
 	r.Floor("C07.recursion", "pointer-descending iterator closures", n, 1)
+}
+
+// refTrackerKinds: which reflect kinds the marshal-side reference tracker (addLocalReference) handles.
+// Returns (allowed set or nil when unrestricted, excluded set).
+func refTrackerKinds(p *core.Program) (allowed map[string]bool, excluded map[string]bool, f *fn) {
+	f = findFn(p, "iterator", "RootObjectIterator.addLocalReference")
+	if f == nil {
+		return nil, nil, nil
+	}
+	info := f.Pkg.TypesInfo
+	excluded = map[string]bool{}
+	isKindCall := func(e ast.Expr) bool {
+		c, ok := stripParens(e).(*ast.CallExpr)
+		if !ok {
+			return false
+		}
+		cal := callee(info, c)
+		return cal != nil && cal.Name() == "Kind" && typeIs(recvType(cal), "reflect", "Value")
+	}
+	returnsFalse := func(body []ast.Stmt) bool {
+		for _, s := range body {
+			if ret, ok := s.(*ast.ReturnStmt); ok && len(ret.Results) == 1 {
+				if v := constVal(info, ret.Results[0]); v != nil && v.ExactString() == "false" {
+					return true
+				}
+			}
+		}
+		return false
+	}
+	kindName := func(e ast.Expr) string {
+		if c, ok := objOf(info, e).(*types.Const); ok && c.Pkg() != nil && c.Pkg().Path() == "reflect" {
+			return c.Name()
+		}
+		return ""
+	}
+	ast.Inspect(f.Decl.Body, func(n ast.Node) bool {
+		switch s := n.(type) {
+		case *ast.SwitchStmt:
+			if s.Tag == nil || !isKindCall(s.Tag) {
+				return true
+			}
+			defaultRejects := false
+			var keep []string
+			for _, c := range s.Body.List {
+				cc := c.(*ast.CaseClause)
+				if cc.List == nil {
+					defaultRejects = returnsFalse(cc.Body)
+					continue
+				}
+				for _, e := range cc.List {
+					if returnsFalse(cc.Body) {
+						excluded[kindName(e)] = true
+					} else {
+						keep = append(keep, kindName(e))
+					}
+				}
+			}
+			if defaultRejects {
+				allowed = map[string]bool{}
+				for _, k := range keep {
+					allowed[k] = true
+				}
+			}
+		case *ast.IfStmt:
+			if be, ok := stripParens(s.Cond).(*ast.BinaryExpr); ok && isKindCall(be.X) && returnsFalse(s.Body.List) {
+				if be.Op == token.EQL {
+					excluded[kindName(be.Y)] = true
+				}
+				if be.Op == token.NEQ {
+					allowed = map[string]bool{kindName(be.Y): true}
+				}
+			}
+		}
+		return true
+	})
+	return allowed, excluded, f
+}
+
+// checkRefTrackerKinds: cycle detection must cover every kind through which a value can reach itself.
+func checkRefTrackerKinds(r *core.Run, p *core.Program, rule string) {
+	allowed, excluded, f := refTrackerKinds(p)
+	if f == nil {
+		r.Undecided(rule, "iterator.RootObjectIterator.addLocalReference")
+		return
+	}
+	missing := []string{}
+	for _, k := range []string{"Ptr", "Slice", "Map"} {
+		alt := k
+		if k == "Ptr" {
+			alt = "Pointer"
+		}
+		if excluded[k] || excluded[alt] || (allowed != nil && !allowed[k] && !allowed[alt]) {
+			missing = append(missing, k)
+		}
+	}
+	r.Check(rule, "iterator.RootObjectIterator.addLocalReference|tracks pointers, slices and maps", f.Decl.Pos(), len(missing) == 0,
+		"the reference tracker ignores values of kind "+strings.Join(missing, ", ")+": a value that reaches itself through such a kind is iterated without bound (fatal stack overflow) even with recursion support enabled, and shared substructures of that kind are duplicated instead of referenced")
 }
